@@ -1,10 +1,15 @@
 package main
 
 import (
+	"fmt"
 	"go/ast"
+	"go/constant"
+	"go/token"
 	"go/types"
 	"reflect"
 	"strings"
+
+	"golang.org/x/tools/go/packages"
 
 	"promverif/eng"
 )
@@ -13,15 +18,15 @@ func init() {
 	register(&Property{
 		ID:        "C49",
 		Title:     "A loaded configuration prints to text that loads to the same configuration",
-		Technique: "struct-tag table rule over every struct of package config (go/types): a field hidden from YAML must be re-emitted by the type's MarshalYAML; go/cfg order rule for defaults that are filled in after a cross-field validation (the default has to respect the validated relation, otherwise the printed text fails the same validation)",
+		Technique: "struct-tag table rule over every struct of package config (go/types): a field hidden from YAML must be re-emitted by the type's MarshalYAML; go/cfg order rule for defaults that are filled in after a cross-field validation (the default has to respect the validated relation, otherwise the printed text fails the same validation); default-literal versus struct-tag rule (a scalar field with a non-zero default may be `omitempty` only if the loader rejects or normalises its zero value, derived from the if/switch tests on the field); rewrite-after-decoding rule (os.Expand needs a re-escaping marshaller)",
 		DesignRef: "DESIGN.md §5 C49",
 		Level: "Decides that no field of a configuration struct is hidden from YAML (`yaml:\"-\"`) unless its type has a MarshalYAML that re-emits it (the two service-discovery holders), that every type with such a MarshalYAML also has the UnmarshalYAML that reads the inline form, " +
-			"and that the global scrape timeout, which is validated against the scrape interval before its default is filled in, gets a default that is bounded by the interval (so the printed global section passes the validation it was loaded with).",
+			"and that the global scrape timeout, which is validated against the scrape interval before its default is filled in, gets a default that is bounded by the interval (so the printed global section passes the validation it was loaded with), that no scalar field of package config or model/relabel whose default is non-zero is omitted from the printed text when zero unless that zero cannot result from loading, and whether the environment expansion of external labels is undone on print (it is not: known finding).",
 		Note:           "Trusted: go/packages, go/types, go/cfg; rule tables in checker/c49.go.",
 		Covers:         "struct tags of all structs in package config; ScrapeConfig / AlertmanagerConfig MarshalYAML/UnmarshalYAML; GlobalConfig.UnmarshalYAML order of interval default, timeout validation and timeout default.",
 		NotCover:       "equality of the reloaded configuration (values), secrets, discovery-specific config types.",
 		Run:            runC49,
-		MinObligations: 8,
+		MinObligations: 40,
 	})
 }
 
@@ -88,5 +93,282 @@ func runC49(c *eng.Ctx) {
 		return has && g.UnderCond(l, "gc.ScrapeTimeout == 0")
 	})
 	g.GivenBranch("gc.ScrapeTimeout > gc.ScrapeInterval", true).Unreachable("R2", timeoutDefault)
-	_ = strings.Contains
+	runC49Omitted(c)
+	runC49Expand(c)
+}
+
+// c49ZeroNotLoadable lists omitempty fields with a non-zero default whose zero value cannot be the result of
+// loading a valid configuration (so dropping it on print loses nothing); one line of reason each.
+var c49ZeroNotLoadable = map[string]string{
+	"config:RuntimeConfig.GoGC":                "Config.UnmarshalYAML replaces a runtime section whose gogc is 0 (RuntimeConfig.isZero) by DefaultRuntimeConfig",
+	"config:RemoteWriteConfig.ProtobufMessage": "RemoteWriteConfig.UnmarshalYAML rejects an empty message type through ProtobufMessage.Validate",
+}
+
+// c49ZeroGuarded reports whether some function of the package tests the field against its zero value (if
+// condition `x.F == 0`, `<= 0`, `== ""`, or a switch on `x.F`) and, under that test, either assigns the field
+// (the zero is normalised to a default while loading) or returns (the zero is rejected).
+func c49ZeroGuarded(p *eng.Prog, pk *packages.Package, fld *types.Var) string {
+	isF := func(e ast.Expr) bool {
+		se, ok := ast.Unparen(e).(*ast.SelectorExpr)
+		return ok && pk.TypesInfo.Uses[se.Sel] == fld
+	}
+	zeroTest := func(e ast.Expr) bool {
+		found := false
+		ast.Inspect(e, func(n ast.Node) bool {
+			be, ok := n.(*ast.BinaryExpr)
+			if !ok || !isF(be.X) {
+				return true
+			}
+			y := eng.ExprString(be.Y)
+			if (be.Op == token.EQL || be.Op == token.LEQ) && (y == "0" || y == `""`) {
+				found = true
+			}
+			return true
+		})
+		return found
+	}
+	handles := func(body ast.Node) string {
+		res := ""
+		ast.Inspect(body, func(n ast.Node) bool {
+			switch x := n.(type) {
+			case *ast.AssignStmt:
+				for _, l := range x.Lhs {
+					if isF(l) {
+						res = "normalised"
+					}
+				}
+			case *ast.ReturnStmt:
+				if len(x.Results) > 0 && res == "" {
+					last := eng.ExprString(x.Results[len(x.Results)-1])
+					if last != "nil" {
+						res = "rejected"
+					}
+				}
+			}
+			return true
+		})
+		return res
+	}
+	out := ""
+	for _, fs := range p.AllFuncs() {
+		if fs.Pkg != pk || out != "" {
+			continue
+		}
+		ast.Inspect(fs.Decl.Body, func(n ast.Node) bool {
+			switch x := n.(type) {
+			case *ast.IfStmt:
+				if zeroTest(x.Cond) {
+					if h := handles(x.Body); h != "" {
+						out = h + " in " + eng.FuncName(fs.Obj)
+					}
+				}
+			case *ast.SwitchStmt:
+				if x.Tag != nil && isF(x.Tag) {
+					// the clause that takes the zero value: one listing a zero constant, else default
+					var zeroCl, defCl *ast.CaseClause
+					for _, st := range x.Body.List {
+						cc := st.(*ast.CaseClause)
+						if cc.List == nil {
+							defCl = cc
+						}
+						for _, e := range cc.List {
+							if tv := pk.TypesInfo.Types[e]; tv.Value != nil && isZeroConst(tv.Value) {
+								zeroCl = cc
+							}
+						}
+					}
+					if zeroCl == nil {
+						zeroCl = defCl
+					}
+					if zeroCl != nil {
+						if h := handles(&ast.BlockStmt{List: zeroCl.Body}); h != "" {
+							out = h + " in " + eng.FuncName(fs.Obj)
+						}
+					}
+				}
+			}
+			return out == ""
+		})
+	}
+	return out
+}
+
+// runC49Omitted (R3): a scalar field that is left out of the printed text when zero (`omitempty`) must have the
+// zero value as its default; otherwise an explicit zero loads, is dropped on print and reloads as the default.
+// The defaults are read from the composite literals of the package-level Default* variables that the
+// UnmarshalYAML methods assign before decoding.
+func runC49Omitted(c *eng.Ctx) {
+	nLits, nFields, nGuarded := c49OmittedIn(c, c.P.Pkg("config"))
+	c.Check("R3", "config", "default literals applied while loading ≥ 10, scalar fields with non-zero default ≥ 25, of which omitted-when-zero but never zero after loading ≥ 8", nLits >= 10 && nFields >= 25 && nGuarded >= 8, "", fmt.Sprintf("%d literals, %d fields, %d guarded", nLits, nFields, nGuarded))
+	// the same rule over relabelling (the property's second anchor).  The service-discovery packages are outside
+	// the property's anchors; run over them the rule lists 35 untriaged candidates (DESIGN.md §4, observation F35).
+	l, f, _ := c49OmittedIn(c, c.P.Pkg("model/relabel"))
+	c.Check("R3", "model/relabel", "default literals applied while loading ≥ 1, scalar fields with non-zero default ≥ 3", l >= 1 && f >= 3, "", fmt.Sprintf("%d literals, %d fields", l, f))
+}
+
+func c49OmittedIn(c *eng.Ctx, pk *packages.Package) (nLits, nFields, nGuarded int) {
+	p := c.P
+	prel := strings.TrimPrefix(pk.PkgPath, eng.ModPath+"/")
+	type defLit struct {
+		name string
+		lit  *ast.CompositeLit
+		st   *types.Struct
+		tn   string
+	}
+	lits := map[types.Object]*defLit{}
+	for _, f := range pk.Syntax {
+		for _, d := range f.Decls {
+			gd, ok := d.(*ast.GenDecl)
+			if !ok {
+				continue
+			}
+			for _, sp := range gd.Specs {
+				vs, ok := sp.(*ast.ValueSpec)
+				if !ok {
+					continue
+				}
+				for i, n := range vs.Names {
+					if i >= len(vs.Values) {
+						continue
+					}
+					cl, ok := vs.Values[i].(*ast.CompositeLit)
+					if !ok {
+						continue
+					}
+					nt, ok := pk.TypesInfo.TypeOf(cl).(*types.Named)
+					if !ok || nt.Obj().Pkg() != pk.Types {
+						continue
+					}
+					st, ok := nt.Underlying().(*types.Struct)
+					if !ok {
+						continue
+					}
+					lits[pk.TypesInfo.Defs[n]] = &defLit{name: n.Name, lit: cl, st: st, tn: nt.Obj().Name()}
+				}
+			}
+		}
+	}
+	// which of them are applied while loading: assigned inside a function, or nested in an applied literal
+	applied := map[types.Object]bool{}
+	for _, fs := range p.AllFuncs() {
+		if fs.Pkg != pk {
+			continue
+		}
+		ast.Inspect(fs.Decl.Body, func(n ast.Node) bool {
+			as, ok := n.(*ast.AssignStmt)
+			if !ok {
+				return true
+			}
+			for _, r := range as.Rhs {
+				if id, ok := r.(*ast.Ident); ok {
+					if o := pk.TypesInfo.Uses[id]; o != nil && lits[o] != nil {
+						applied[o] = true
+					}
+				}
+			}
+			return true
+		})
+	}
+	for changed := true; changed; {
+		changed = false
+		for o, dl := range lits {
+			if !applied[o] {
+				continue
+			}
+			ast.Inspect(dl.lit, func(n ast.Node) bool {
+				if id, ok := n.(*ast.Ident); ok {
+					if u := pk.TypesInfo.Uses[id]; u != nil && lits[u] != nil && !applied[u] {
+						applied[u] = true
+						changed = true
+					}
+				}
+				return true
+			})
+		}
+	}
+	seen := map[string]bool{}
+	for o, dl := range lits {
+		if !applied[o] {
+			continue
+		}
+		nLits++
+		for _, el := range dl.lit.Elts {
+			kv, ok := el.(*ast.KeyValueExpr)
+			if !ok {
+				continue
+			}
+			fname := eng.ExprString(kv.Key)
+			var tag string
+			var fld *types.Var
+			for i := 0; i < dl.st.NumFields(); i++ {
+				if dl.st.Field(i).Name() == fname {
+					fld, tag = dl.st.Field(i), reflect.StructTag(dl.st.Tag(i)).Get("yaml")
+				}
+			}
+			if fld == nil {
+				continue
+			}
+			if _, basic := fld.Type().Underlying().(*types.Basic); !basic {
+				continue
+			}
+			tv := pk.TypesInfo.Types[kv.Value]
+			nonZero := tv.Value == nil || !isZeroConst(tv.Value) // a non-constant default is taken as non-zero
+			if !nonZero {
+				continue
+			}
+			nFields++
+			where := prel + ":" + dl.tn + "." + fname
+			if seen[where] {
+				continue
+			}
+			seen[where] = true
+			omit := strings.Contains(tag, ",omitempty")
+			why, exc := c49ZeroNotLoadable[where]
+			if !exc && omit {
+				if why = c49ZeroGuarded(p, pk, fld); why != "" {
+					exc = true
+				}
+			}
+			if exc && omit {
+				nGuarded++
+			}
+			c.Check("R3", where, "a scalar field with a non-zero default is printed even when zero (no omitempty), or its zero value cannot result from loading (normalised or rejected)", !omit || exc, p.Pos(fld.Pos()),
+				"the field is tagged `"+tag+"` and defaults to "+eng.ExprString(kv.Value)+": an explicit zero value loads, is left out of the printed text and reloads as the default")
+		}
+	}
+	return
+}
+
+// runC49Expand (R4): a rewrite applied after decoding is undone when printing.
+func runC49Expand(c *eng.Ctx) {
+	p := c.P
+	ld := c.Fn("config:Load")
+	nExpand := 0
+	ast.Inspect(ld.Body, func(n ast.Node) bool {
+		call, ok := n.(*ast.CallExpr)
+		if !ok {
+			return true
+		}
+		if f := ld.Callee(call); f == nil || f.Pkg() == nil || f.Pkg().Path() != "os" || f.Name() != "Expand" {
+			return true
+		}
+		nExpand++
+		m := p.TryFunc("config:GlobalConfig.MarshalYAML")
+		c.Check("R4", ld.Where(), "environment expansion of external label values (os.Expand turns `$$` into `$`) is undone when the configuration is printed (GlobalConfig.MarshalYAML re-escapes `$`)", m != nil, p.Pos(call.Pos()),
+			"the expanded value is stored in GlobalConfig.ExternalLabels and printed as is; loading the printed text expands it a second time")
+		return true
+	})
+	c.Check("R4", ld.Where(), "expansion sites examined = 1", nExpand == 1, p.Pos(ld.Body.Pos()), "")
+}
+
+func isZeroConst(v constant.Value) bool {
+	switch v.Kind() {
+	case constant.Bool:
+		return !constant.BoolVal(v)
+	case constant.String:
+		return constant.StringVal(v) == ""
+	case constant.Int, constant.Float, constant.Complex:
+		return constant.Sign(v) == 0
+	}
+	return false
 }
